@@ -68,6 +68,8 @@ pub struct Cx<'g> {
     fuel_next: usize,
     /// length of the array type a `let` annotation asks for (const-generic argument of the initialiser call)
     pub array_len_hint: Option<String>,
+    /// aliases to install in the next block scope (loop variable of `for x in v.iter_mut()`)
+    pending_aliases: Vec<(String, Place)>,
 }
 
 impl<'g> Cx<'g> {
@@ -99,16 +101,27 @@ impl<'g> Cx<'g> {
             fuels: Vec::new(),
             fuel_next: 0,
             array_len_hint: None,
+            pending_aliases: Vec::new(),
         }
     }
 
     pub fn bail<T>(&self, span: proc_macro2::Span, msg: impl Into<String>) -> R<T> {
-        Err(TErr { file: self.file.clone(), line: span.start().line, msg: msg.into() })
+        Err(TErr { file: self.file.clone(), line: span.start().line, msg: msg.into(), missing: None })
     }
 
     pub fn fresh(&mut self) -> String {
         self.tmp += 1;
         format!("t{}", self.tmp)
+    }
+
+    /// open / close a scope for closure parameters
+    pub fn push_scope(&mut self, binds: Vec<(String, Ty)>) {
+        self.scopes.push(binds);
+        self.aliases.push(Vec::new());
+    }
+    pub fn pop_scope(&mut self) {
+        self.aliases.pop();
+        self.scopes.pop();
     }
 
     pub fn tmp_mark(&self) -> usize {
@@ -362,7 +375,8 @@ impl<'g> Cx<'g> {
 
     pub fn items(&mut self, items: &[syn::Stmt], tail: &Tail, binds: &[(String, Ty)], span: proc_macro2::Span) -> R<(Doc, Ty, bool)> {
         self.scopes.push(binds.to_vec());
-        self.aliases.push(Vec::new());
+        let pa = std::mem::take(&mut self.pending_aliases);
+        self.aliases.push(pa);
         let saved_globs = self.glob_enums.len();
         let r = self.items_inner(items, tail, span);
         self.glob_enums.truncate(saved_globs);
@@ -806,6 +820,67 @@ impl<'g> Cx<'g> {
         Ok(())
     }
 
+    fn for_iter_mut(&mut self, f: &syn::ExprForLoop, recv: &syn::Expr, enumerated: bool, stmts: &mut Vec<Stmt>) -> R<()> {
+        let pl = self.place(recv, stmts)?;
+        let et = match pl.ty() {
+            Ty::List(e, _) => *e,
+            _ => return self.bail(recv.span(), "`iter_mut()` on a value that is not an array / Vec / slice"),
+        };
+        // loop variables
+        let (ivar, xvar): (Option<String>, String) = match (&*f.pat, enumerated) {
+            (syn::Pat::Ident(pi), false) if pi.subpat.is_none() => (None, pi.ident.to_string()),
+            (syn::Pat::Tuple(t), true) if t.elems.len() == 2 => {
+                let i = match &t.elems[0] {
+                    syn::Pat::Ident(pi) if pi.subpat.is_none() => Some(pi.ident.to_string()),
+                    syn::Pat::Wild(_) => None,
+                    o => return self.bail(o.span(), "unsupported loop pattern"),
+                };
+                let x = match &t.elems[1] {
+                    syn::Pat::Ident(pi) if pi.subpat.is_none() => pi.ident.to_string(),
+                    o => return self.bail(o.span(), "unsupported loop pattern"),
+                };
+                (i, x)
+            }
+            (o, _) => return self.bail(o.span(), "unsupported loop pattern for `iter_mut()`"),
+        };
+        self.check_local_name(&xvar, f.pat.span())?;
+        let ivar = match ivar {
+            Some(i) => {
+                self.check_local_name(&i, f.pat.span())?;
+                i
+            }
+            None => {
+                let k = self.fresh();
+                format!("i_{}", k)
+            }
+        };
+        let mut bound: Vec<String> = vec![ivar.clone(), xvar.clone()];
+        bound.dedup();
+        let mut m = self.assigned_in_block(&f.body, &bound);
+        let root = pl.root();
+        if !m.contains(&root) {
+            m.push(root);
+            m.sort();
+        }
+        let cur = self.read(&pl, stmts)?;
+        let hi = format!("(RustSem.len {})", cur);
+        let site = format!("\"{}:{}: {}\"", self.file, self.fn_disp, self.src(f.expr.span(), String::new()));
+        let alias = Place::Index(Box::new(pl), lean_ident(&ivar), et.clone(), site);
+        self.pending_aliases.push((xvar.clone(), alias));
+        let binds = vec![(ivar.clone(), Ty::usize()), (xvar.clone(), et)];
+        let (body, _, _) = self.block(&f.body, &Tail::Unit(m.clone()), &binds)?;
+        self.note_dirty(&m);
+        stmts.push(Stmt::Bind(
+            Self::tuple_pat(&m),
+            Doc::Lam(
+                format!("RustSem.forRange 0 {} {}", hi, Self::tuple_val(&m)),
+                format!("fun {} {}", lean_ident(&ivar), Self::tuple_pat(&m)),
+                Box::new(body),
+            ),
+        ));
+        Ok(())
+    }
+
     fn for_loop(&mut self, f: &syn::ExprForLoop, stmts: &mut Vec<Stmt>) -> R<()> {
         if !self.loop_stack.is_empty() {
             // a `for` nested in a `while`: `return` inside is fine (passes through), `continue`/`break` are rejected below
@@ -873,6 +948,19 @@ impl<'g> Cx<'g> {
             }
             other => {
                 // `for x in list` / `&list` / `list.iter()`
+                // `for x in place.iter_mut()` / `for (i, x) in place.iter_mut().enumerate()`:
+                // ≡ `for i in 0..place.len() { let x = &mut place[i]; … }`
+                {
+                    let (inner_e, enumerated) = match other {
+                        syn::Expr::MethodCall(mc) if mc.method == "enumerate" && mc.args.is_empty() => (&*mc.receiver, true),
+                        o => (o, false),
+                    };
+                    if let syn::Expr::MethodCall(mc) = inner_e {
+                        if mc.method == "iter_mut" && mc.args.is_empty() {
+                            return self.for_iter_mut(f, &mc.receiver, enumerated, stmts);
+                        }
+                    }
+                }
                 // `list.iter().enumerate()`
                 let mut enumerate = false;
                 let other = match other {
@@ -1012,7 +1100,7 @@ impl<'g> Cx<'g> {
             Place::Var(n, _) => {
                 if n == "self" {
                     if self.self_mode != SelfMode::Mut {
-                        return Err(TErr { file: self.file.clone(), line: 0, msg: "mutation of `self` in a method without `&mut self`".into() });
+                        return Err(TErr { file: self.file.clone(), line: 0, msg: "mutation of `self` in a method without `&mut self`".into(), missing: None });
                     }
                     self.self_dirty = true;
                 }
@@ -1141,6 +1229,7 @@ impl<'g> Cx<'g> {
     }
 
     pub fn fn_lean_name(&self, f: &FnInfo) -> String {
+        self.g.note(&f.group);
         if f.ns == self.ns {
             // a free fn whose name is also a method of the current impl type would be captured by
             // Lean's namespace resolution inside `def Type.method`: qualify it
